@@ -95,7 +95,7 @@ theorem edits_independent (n : Nat) (o : Obj) (hfresh : ∀ i ∈ ids o, i < n)
     exact ih (fun x hx => hes x (by simp [hx]))
 
 /-- … and vice versa: edits of the original's objects never reach the clone -/
-theorem edits_independent' (n : Nat) (o : Obj) (hfresh : ∀ i ∈ ids o, i < n)
+theorem edits_independent_rev (n : Nat) (o : Obj) (hfresh : ∀ i ∈ ids o, i < n)
     (es : List (Nat × String × List Obj)) (hes : ∀ e ∈ es, e.1 < n) :
     (es.foldl (fun x e => edit e.1 e.2.1 e.2.2 x) (copy n o).1) = (copy n o).1 := by
   induction es with
